@@ -117,6 +117,19 @@ def rules(ctx):
                      "read-modify-write of the reduced key" if ok else
                      "the store under the reduced key `%s` overwrites the previous value: source terms that collapse "
                      "onto one key are lost" % key)
+        # the accumulation must be unconditional: it dominates every store / removal of the reduced key
+        accs = [n for n in ast.walk(lp) if isinstance(n, (ast.AugAssign, ast.Assign)) and
+                ('%s.get(' % res in src(n) or '%s[' % res in src(getattr(n, 'value', n)))
+                and not any(isinstance(t, ast.Subscript) and is_name(t.value, res or '')
+                            for t in (n.targets if isinstance(n, ast.Assign) else [n.target]))]
+        sinks = stores + [n for n in ast.walk(lp) if isinstance(n, ast.Expr) and isinstance(n.value, ast.Call)
+                          and call_name(n.value) == 'pop' and is_name(n.value.func.value, res or '')]
+        if accs and sinks:
+            okd = all(any(g.dominates([a], k_) for a in accs) for k_ in sinks)
+            ctx.inst('R18.3', fn, accs[0], okd,
+                     "the previous value is added before the store/removal decision on every path" if okd else
+                     "the previous value of the reduced key is added only on some paths (`%s` is conditional): on the "
+                     "other paths the store/removal discards what was accumulated before" % src(accs[0]))
         # R18.4 constant handling
         skips = [n for n in ast.walk(lp) if isinstance(n, ast.Continue)]
         sk = False
@@ -160,6 +173,22 @@ def rules(ctx):
                  "factor = value / max(abs(coefficient)) computed once outside the loop" if okf and not inloop else
                  "scaling factor `%s` is not value / max(abs(v) for all coefficients) computed once before the loop" % src(v))
         lp = loops[0]
+        # every path of a non-empty model passes the scaling loop
+        bypass = []
+        for path in g.paths(ENTRY, (EXIT,), limit=500):
+            nodes = [n for n, lab in path]
+            if lp in nodes:
+                continue
+            facts = []
+            for n, lab in path:
+                if lab and lab[0] not in ('iter', 'exc'):
+                    facts += compare_atoms(lab[0], lab[1])
+            if ('falsy', src_name) not in facts:
+                bypass.append(facts)
+        ctx.inst('R18.5', fn, 'scaling is unconditional', not bypass,
+                 "every path of a non-empty model rescales all coefficients" if not bypass else
+                 "a path under %s returns without rescaling a non-empty model: the largest magnitude need not equal "
+                 "the requested value" % [f for f in bypass[0] if f][:3])
         st = [n for n in ast.walk(lp) if isinstance(n, (ast.Assign, ast.AugAssign))]
         oks = False
         for n in st:
